@@ -5,17 +5,27 @@ package main
 //   registerStepPrefix("pfx", f)     a family of step names "pfx<arg>"
 //   registerFreshStep("name")        the step may run before a swap id exists (it creates the swap)
 //   registerTail("Cxx", f)           runs after every scenario when psh fsm is called with -focus Cxx
+//   registerDirectedFor("Cxx", ds)   directed scenarios that run only with -focus Cxx (after the shared ones)
 import "strings"
 
 var extraSteps = map[string]func(sc *Scen){}
 var extraStepPrefixes = map[string]func(sc *Scen, arg string){}
 var freshExtraSteps = map[string]bool{}
 var scenarioTails = map[string]func(sc *Scen){}
+var directedFor = map[string][]directed{}
 
 func registerStep(name string, f func(sc *Scen))                   { extraSteps[name] = f }
 func registerStepPrefix(prefix string, f func(sc *Scen, a string)) { extraStepPrefixes[prefix] = f }
 func registerFreshStep(prefix string)                              { freshExtraSteps[prefix] = true }
 func registerTail(focus string, f func(sc *Scen))                  { scenarioTails[focus] = f }
+func registerDirectedFor(focus string, ds ...directed) {
+	directedFor[focus] = append(directedFor[focus], ds...)
+}
+
+// called once by runFsm: the focus' own directed scenarios follow the shared ones
+func addFocusDirected(focus string) {
+	directedScenarios = append(directedScenarios, directedFor[focus]...)
+}
 
 func runExtraStep(sc *Scen, n string) {
 	if f, ok := extraSteps[n]; ok {
